@@ -20,8 +20,8 @@ LEVEL_TEXT = ("All histories of insert/update/remove/random_removal up to the de
 LEVEL_NOTE = "bounded depth and alphabet; reference = a plain dict; float tolerance 1e-9"
 RULE = "states = distinct full internal states (items order, positions, weights, total, max, max count) reached by any history up to the depth bound; non-trivial = state with >=2 items of different positive weight"
 # every selection is explored with the probability-zero outcome "uniform draw == 0.0" as an extra branch
-BOUNDS = {"quick": "items {a,b,c}; weights {0,1e-8,0.1,0.3,2}; depth 5; start states: empty + one per first operation (fan-out); in vivo: every weighted Gillespie_SIR/SIS spec of C01/C02 on <=3 nodes and the non-monotone complex-contagion programs of C15 on <=3 nodes (selection probability, clock rate, held weights, zero-weight events)",
-          "thorough": "items {a,b,c}; weights {0,1e-8,0.1,0.2,0.3,1,2}; depth 5; in vivo: the thorough C01/C02/C15 specs on <=3 nodes"}
+BOUNDS = {"quick": "items {a,b,c}; weights {0,1e-8,0.1,0.3,2}; depth 5; start states: empty + one per first operation (fan-out); in vivo: every weighted Gillespie_SIR/SIS spec of C01/C02 on <=3 nodes and the non-monotone complex-contagion programs of C15 on <=3 nodes (selection probability, clock rate, held weights, zero-weight events); the all-reject execution of choose_random followed for 150, 1500 and 15000 consecutive proposals (two weight ratios)",
+          "thorough": "items {a,b,c}; weights {0,1e-8,0.1,0.2,0.3,1,2}; depth 5; in vivo: the thorough C01/C02/C15 specs on <=3 nodes; all-reject chains up to 150000 proposals"}
 ASSUMPTIONS = ["weight increments are non-negative (as the property states)", "bounded history depth"]
 
 ITEMS = ["a", "b", "c"]
